@@ -1,7 +1,20 @@
-(* C15 - application contract (station-local, one-step part): the reply admission filter.
-   Planned on top of the same model (not yet proved): C15_contract over call logs, C15_routing,
-   C15_round_robin, C15_zero_apps. *)
-From PB Require Import Common Telegram Fdl FdlProofs.
+(* C15 - application contract, matched replies, routing, round-robin: over ARBITRARY histories of the
+   FDL station model, for ARBITRARY applications (any state type, any three callbacks).
+
+   A history is produced by `run A ops f0 apps events` (Proofs/C15Proofs.v): events are polls at any time
+   with any PHY input (busy flag, receive buffer), set_online / set_offline calls, and arbitrary changes of
+   the application objects by the user between polls.  `run` stops with Panic when a poll panics, so every
+   theorem speaks about every prefix of every execution up to a panic (in particular no callback needs to
+   be assumed total).  The history lists the application callbacks in order (`HCall`), the end of each
+   poll with the time and the station afterwards (`HEnd now f`), and the re-creation of the station by
+   set_offline (`HReset`).  `accepts pre post s h` runs an acceptor with state s over h: every item must
+   satisfy `pre`, `post` updates the state.
+
+   Proof structure (C15Proofs.v): one monitor (cpre / cpost) with state (kind of the station when the poll
+   began, outstanding request, whose turn, number of declines of this visit); an invariant `Inv` between
+   station and monitor; `C15_inv_init`, `C15_step_preserves` (every event, from every state satisfying
+   Inv), `C15_history_monitor` (the lift by induction).  The named theorems are projections of it. *)
+From PB Require Import Common Tables Telegram Phy Params Fdl FdlProofs C15Proofs.
 
 (* What the station forwards to an application as the reply to a request sent to `addr` is exactly:
    a short confirmation, or a response telegram whose source is `addr` and whose destination is this
@@ -10,3 +23,195 @@ Theorem C15_reply_filter : forall (f : fdl) (addr : Z) (t : telegram),
   is_valid_response f addr t = true <-> reply_ok (ts f) addr t.
 Proof. exact is_valid_response_spec. Qed.
 Print Assumptions C15_reply_filter.
+
+(* ---------------------------------------------------------------------------------------------- *)
+(* The invariant, its initialisation, its preservation by every event from EVERY state, the lift.  *)
+
+Theorem C15_inv_init : forall (n : nat) (p : params) (f : fdl), fdl_new p = Ok f -> Inv n f cst_init.
+Proof. exact Inv_init. Qed.
+Print Assumptions C15_inv_init.
+
+Theorem C15_step_preserves : forall (A : Type) (ops : app_ops A) (f : fdl) (apps : list A) (e : event A)
+                                    (f' : fdl) (apps' : list A) (h : list hitem) (m : cst),
+  Inv (length apps) f m -> step A ops f apps e = Ok (f', apps', h) ->
+  accepted (length apps) (ts f) m h /\ Inv (length apps) f' (after (length apps) m h) /\
+  length apps' = length apps /\ f_p f' = f_p f.
+Proof. exact step_preserves. Qed.
+Print Assumptions C15_step_preserves.
+
+Theorem C15_history_monitor : forall (A : Type) (ops : app_ops A) (p : params) (f0 : fdl) (apps : list A)
+                                     (evs : list (event A)) (f : fdl) (apps' : list A) (h : list hitem),
+  fdl_new p = Ok f0 -> run A ops f0 apps evs = Ok (f, apps', h) ->
+  accepted (length apps) (p_address p) cst_init h /\ Inv (length apps) f (after (length apps) cst_init h).
+Proof. exact history_accepted. Qed.
+Print Assumptions C15_history_monitor.
+
+(* ---------------------------------------------------------------------------------------------- *)
+(* C15_contract: what application i may rely on (acceptor apre / apost, state: idle or waiting for the
+   reply from da).  ANY application is asked only in a poll that began in a token-use state (UseToken or
+   AwaitDataResponse, both in have_token) and while application i is not waiting for a reply - so, i being
+   arbitrary, while NO request is outstanding; receive_reply(da, t) / handle_timeout(da) come to i only
+   while it waits for da, end the waiting (at most one of the two per request), and t is SC or a response
+   with SA = da and DA = TS.  The per-application log therefore matches
+     ( transmit->None | transmit->Some(no reply) | transmit->Some(reply from da) ; X )*
+   where X is exactly one of receive_reply da t / handle_timeout da - or nothing, in the one case that
+   the station gives up the token while waiting (it received something that is not a valid reply and
+   returns to ActiveIdle; HEnd rule of apre; set_offline likewise).  DESIGN.md planned "exactly one"
+   without this exception; the property text says "at most one", which is what holds. *)
+Theorem C15_contract : forall (A : Type) (ops : app_ops A) (p : params) (f0 : fdl) (apps : list A)
+                              (evs : list (event A)) (f : fdl) (apps' : list A) (h : list hitem) (i : nat),
+  fdl_new p = Ok f0 -> run A ops f0 apps evs = Ok (f, apps', h) ->
+  accepts (apre (p_address p) i) (apost i) (AppIdle, KOffline) h.
+Proof. exact contract_history. Qed.
+Print Assumptions C15_contract.
+
+(* the same from every station state that satisfies the invariant, not only from a new station *)
+Theorem C15_contract_from_any_state : forall (A : Type) (ops : app_ops A) (f : fdl) (m : cst) (apps : list A)
+                              (evs : list (event A)) (f' : fdl) (apps' : list A) (h : list hitem) (i : nat),
+  Inv (length apps) f m -> run A ops f apps evs = Ok (f', apps', h) ->
+  accepts (apre (ts f) i) (apost i) (app_view i m) h.
+Proof. exact contract_from_inv. Qed.
+Print Assumptions C15_contract_from_any_state.
+
+(* token-use states are token-holding states of the regenerated have_token table *)
+Theorem C15_in_visit_has_token : forall k : state_kind, in_visit k = true -> have_token_kind k = true.
+Proof. exact in_visit_have_token. Qed.
+Print Assumptions C15_in_visit_has_token.
+
+(* which requests await a reply is decided by the regenerated table req_expects_reply (via
+   tx_expects_reply in Phy.transmit = TelegramTx): for applications that build their telegram with the
+   TelegramTx they are handed (hypothesis; `TelegramTxResponse::new` is public, so a hostile application
+   could lie - the contract above holds for those too, with their own expects_reply) *)
+Theorem C15_expects_reply_by_table : forall (A : Type) (ops : app_ops A),
+  (forall a now p hp a' wire er, a_tx ops a now p hp = Ok (a', Some (wire, er)) ->
+     exists size rq, transmit size rq = Ok (wire, er)) ->
+  forall (p : params) (f0 : fdl) (apps : list A) (evs : list (event A)) (f : fdl) (apps' : list A)
+         (h : list hitem) (i : nat) (hp : bool) (wire : bytes) (er : option Z),
+  fdl_new p = Ok f0 -> run A ops f0 apps evs = Ok (f, apps', h) ->
+  In (CallTransmit i hp (Some (wire, er))) (calls_of h) ->
+  exists size rq, transmit size rq = Ok (wire, er) /\
+    forall da, er = Some da <->
+      exists hd pdu fcb r, rq = TxData hd pdu /\ h_fc hd = FcRequest fcb r /\ req_expects_reply r = true /\ da = h_da hd.
+Proof. exact expects_reply_by_table. Qed.
+Print Assumptions C15_expects_reply_by_table.
+
+(* ---------------------------------------------------------------------------------------------- *)
+(* C15_delivered_reply_shape: C15_reply_filter extended to the whole poll, from ANY station state, and
+   to histories *)
+Theorem C15_delivered_reply_shape : forall (A : Type) (ops : app_ops A) (f : fdl) (now : Z) (pin : phy_in)
+    (apps : list A) (f' : fdl) (o : phy_out) (apps' : list A) (calls : list call) (i : nat) (a : Z) (t : telegram),
+  poll ops f now pin apps = Ok (f', o, apps', calls) ->
+  In (CallReceiveReply i a t) calls -> reply_ok (ts f) a t.
+Proof. exact poll_reply_shape. Qed.
+Print Assumptions C15_delivered_reply_shape.
+
+Theorem C15_delivered_reply_shape_history : forall (A : Type) (ops : app_ops A) (p : params) (f0 : fdl)
+    (apps : list A) (evs : list (event A)) (f : fdl) (apps' : list A) (h : list hitem) (i : nat) (a : Z) (t : telegram),
+  fdl_new p = Ok f0 -> run A ops f0 apps evs = Ok (f, apps', h) ->
+  In (CallReceiveReply i a t) (calls_of h) -> reply_ok (p_address p) a t.
+Proof. exact reply_shape_history. Qed.
+Print Assumptions C15_delivered_reply_shape_history.
+
+(* ---------------------------------------------------------------------------------------------- *)
+(* C15_routing: in the station's call log (all applications, in order) every receive_reply(i, a, _) and
+   every handle_timeout(i, a) is IMMEDIATELY preceded by the transmit call of the same application i
+   that sent a request expecting a reply from a.  Hence: only to the application that transmitted, at
+   most one of the two per request, nothing in between. *)
+Theorem C15_routing : forall (A : Type) (ops : app_ops A) (p : params) (f0 : fdl) (apps : list A)
+    (evs : list (event A)) (f : fdl) (apps' : list A) (h : list hitem),
+  fdl_new p = Ok f0 -> run A ops f0 apps evs = Ok (f, apps', h) ->
+  forall (pre : list call) (c : call) (post : list call) (i : nat) (a : Z),
+    calls_of h = pre ++ c :: post -> answers c i a ->
+    exists pre' hp wire, pre = pre' ++ [CallTransmit i hp (Some (wire, Some a))].
+Proof. exact routing_history. Qed.
+Print Assumptions C15_routing.
+
+(* ---------------------------------------------------------------------------------------------- *)
+(* C15_round_robin (acceptor rpre / rpost over (kind when the poll began, turn, declines)):
+   - only the application whose turn it is is called (transmit, reply, time-out); the turn is
+     next_application (second conjunct);
+   - the turn moves exactly when an application declines, to (i + 1) mod n; an application that sends
+     keeps the turn and is asked again;
+   - declines are counted per visit (reset when a visit begins); the declining applications are
+     consecutive, so r_decl = n means every application has declined exactly once since the first
+     decline of the visit;  no application is asked once r_decl = n;
+   - when a poll of a visit ends with r_decl = n (n > 0) the station is in PassToken; and a visit ends in
+     PassToken only with r_decl = n or with the hold time over (end_token_hold_time <= now). *)
+Theorem C15_round_robin : forall (A : Type) (ops : app_ops A) (p : params) (f0 : fdl) (apps : list A)
+    (evs : list (event A)) (f : fdl) (apps' : list A) (h : list hitem),
+  fdl_new p = Ok f0 -> run A ops f0 apps evs = Ok (f, apps', h) ->
+  accepts (rpre (length apps)) (rpost (length apps)) (mkRr KOffline 0 0) h /\
+  r_turn (posts (rpost (length apps)) (mkRr KOffline 0 0) h) = f_next_app f.
+Proof. exact round_robin_history. Qed.
+Print Assumptions C15_round_robin.
+
+(* the arithmetic behind "cycle completed": in schedule_next_application the comparison
+   next == first_app is true exactly when the n-th application of the visit has declined *)
+Theorem C15_cycle_completed_iff_all_declined : forall (n : nat) (fa : option nat) (next d : nat),
+  (next < n)%nat -> visit_inv n fa next d ->
+  let first := match fa with Some x => x | None => next end in
+  let next' := Nat.modulo (next + 1) n in
+  if Nat.eqb next' first then S d = n else visit_inv n (Some first) next' (S d).
+Proof. exact decline_step. Qed.
+Print Assumptions C15_cycle_completed_iff_all_declined.
+
+(* ---------------------------------------------------------------------------------------------- *)
+(* C15_zero_apps: without applications no callback is ever made and the station never waits for a data
+   reply; do_use_token then asks nobody, does not reach the `% apps.len()` of schedule_next_application
+   (which would be a division by zero) and goes on to pass the token, hold time over or not. *)
+Theorem C15_zero_apps : forall (A : Type) (ops : app_ops A) (p : params) (f0 : fdl) (evs : list (event A))
+    (f : fdl) (apps' : list A) (h : list hitem),
+  fdl_new p = Ok f0 -> run A ops f0 [] evs = Ok (f, apps', h) ->
+  calls_of h = [] /\ apps' = [] /\ kind_of (f_state f) <> KAwaitDataResponse.
+Proof. exact zero_apps_history. Qed.
+Print Assumptions C15_zero_apps.
+
+Theorem C15_zero_apps_passes_token : forall (A : Type) (ops : app_ops A) (f : fdl) (w : world A) (now tk : Z)
+    (fa : option nat) (fcd : bool) (l : Z),
+  w_apps w = [] -> f_state f = UseToken tk fa fcd -> f_last_token_time f = tk -> f_lba f = Some l ->
+  i64_ok (l + p_bits_to_time (f_p f) sync_pause_bits) = true ->
+  l + p_bits_to_time (f_p f) sync_pause_bits < now ->
+  exists w', do_use_token A ops f now w = Ok (set_st f (PassToken true first_attempt), w') /\
+             w_calls w' = w_calls w /\ w_tx w' = w_tx w /\ w_apps w' = [].
+Proof. exact do_use_token_zero_apps. Qed.
+Print Assumptions C15_zero_apps_passes_token.
+
+(* ---------------------------------------------------------------------------------------------- *)
+(* Non-vacuity.  A concrete application (sends one SRD request to station 5, then declines) on a
+   concrete token-holding station that satisfies the invariant, four polls: the model produces the log
+   transmit->Some(reply from 5); receive_reply 5 SC; transmit->None and ends in PassToken. *)
+Example C15_demo_history : exists f apps h,
+  run nat demo_ops demo_start [0%nat] demo_events = Ok (f, apps, h) /\
+  calls_of h = [CallTransmit 0 false (Some (demo_wire, Some 5)); CallReceiveReply 0 5 TShortConf; CallTransmit 0 false None] /\
+  f_state f = PassToken true AttFirst /\ apps = [2%nat].
+Proof. exact demo_history. Qed.
+
+(* ... and from a newly created station (goes online, listens, claims the token after its time-out, is
+   taken offline and online again): the hypotheses of the history theorems are satisfiable *)
+Example C15_demo_from_new_station : exists f0, fdl_new demo_params = Ok f0 /\
+  is_ok (run nat demo_ops f0 [0%nat] demo_init_events) = true.
+Proof. exact demo_from_init. Qed.
+
+Example C15_demo_start_satisfies_inv : Inv 1 demo_start (cst_of demo_start 0).
+Proof. exact demo_inv. Qed.
+
+(* The acceptors reject wrong logs: an unsolicited reply, a reply from another station, a second
+   request while one is outstanding, an application asked out of turn. *)
+Example C15_contract_rejects_unsolicited_reply :
+  ~ accepts (apre 2 0) (apost 0) (AppIdle, KAwaitDataResponse) [HCall (CallReceiveReply 0 5 TShortConf)].
+Proof. exact contract_rejects_unsolicited_reply. Qed.
+
+Example C15_contract_rejects_foreign_reply :
+  ~ accepts (apre 2 0) (apost 0) (AppWaiting 5, KAwaitDataResponse)
+      [HCall (CallReceiveReply 0 5 (TData (mkHeader 2 7 None None (FcResponse RsSlave StOk)) []))].
+Proof. exact contract_rejects_foreign_reply. Qed.
+
+Example C15_contract_rejects_second_request :
+  ~ accepts (apre 2 0) (apost 0) (AppIdle, KUseToken)
+      [HCall (CallTransmit 0 false (Some ([], Some 5))); HCall (CallTransmit 0 false None)].
+Proof. exact contract_rejects_second_request. Qed.
+
+Example C15_round_robin_rejects_out_of_turn :
+  ~ accepts (rpre 3) (rpost 3) (mkRr KUseToken 0 0)
+      [HCall (CallTransmit 0 false None); HCall (CallTransmit 2 false None)].
+Proof. exact round_robin_rejects_out_of_turn. Qed.
